@@ -1002,6 +1002,185 @@ mod oracle {
         }
     }
 
+    // ---------------------------------------------------------------- C13 ------------
+    #[test]
+    fn oracle_c13_trackers_equal_batch_statistics() {
+        use mini_mcmc::stats::{collect_rhat, ChainStats, ChainTracker, MultiChainTracker};
+        // update sequences: leading rejections, moves that keep coordinate 0, tiny and huge scales
+        let seqs: Vec<(&str, usize, Box<dyn Fn(usize, usize, usize) -> f64>)> = vec![
+            ("rejections first", 2, Box::new(|c, t, p| if t < 3 { 1.0 + c as f64 } else { ((t * 7 + c * 3 + p * 5) % 11) as f64 * 0.5 + c as f64 })),
+            ("coordinate 0 sticky", 3, Box::new(|c, t, p| if p == 0 { (t / 10) as f64 + c as f64 } else { ((t * 5 + p * 3 + c) % 13) as f64 * 0.25 })),
+            ("scale 1e-4", 2, Box::new(|c, t, p| 1e-4 * (((t * 7 + c * 3 + p * 5) % 11) as f64 * 0.5 + 2.0 * c as f64))),
+            ("scale 1e-6", 1, Box::new(|c, t, _p| 1e-6 * (((t * 7 + c * 5) % 11) as f64 + 3.0 * c as f64))),
+            ("scale 1e3", 2, Box::new(|c, t, p| 1e3 * (((t * 7 + c * 3 + p * 5) % 11) as f64 * 0.5 + 0.5 * c as f64))),
+            ("all moves", 4, Box::new(|c, t, p| (t as f64 * 0.37 + c as f64 * 1.1 + p as f64 * 0.2).sin())),
+        ];
+        for (name, n_params, f) in seqs.iter() {
+            let (n_chains, n) = (3usize, 60usize);
+            let mut stats: Vec<ChainStats> = vec![];
+            let mut multi = MultiChainTracker::new(n_chains, *n_params);
+            let mut trackers: Vec<ChainTracker> = (0..n_chains).map(|c| ChainTracker::new(*n_params, &(0..*n_params).map(|p| f(c, 0, p)).collect::<Vec<f64>>())).collect();
+            let mut ema: Vec<f64> = vec![-1.0; n_chains];
+            let mut last: Vec<Vec<f64>> = (0..n_chains).map(|c| (0..*n_params).map(|p| f(c, 0, p) as f32 as f64).collect()).collect();
+            for t in 0..n {
+                let mut flat: Vec<f64> = vec![];
+                for c in 0..n_chains {
+                    let x: Vec<f64> = (0..*n_params).map(|p| f(c, t, p)).collect();
+                    trackers[c].step(&x).unwrap();
+                    let xf: Vec<f64> = x.iter().map(|v| *v as f32 as f64).collect();
+                    let changed = xf != last[c];
+                    let start = if ema[c] >= 0.0 { ema[c] } else { (xf[0] != last[c][0]) as i32 as f64 };
+                    ema[c] = 0.99 * start + 0.01 * (changed as i32 as f64);
+                    last[c] = xf;
+                    flat.extend(x);
+                }
+                multi.step(&flat).unwrap();
+            }
+            for c in 0..n_chains {
+                let st = trackers[c].stats();
+                if st.n != n as u64 {
+                    witness(format!("{{\"oracle\":\"c13\",\"case\":\"{name}\",\"what\":\"count {} after {n} updates\"}}", st.n));
+                }
+                if !((st.p_accept as f64 - ema[c]).abs() <= 1e-4) || !(0.0..=1.0).contains(&st.p_accept) {
+                    witness(format!("{{\"oracle\":\"c13\",\"case\":\"{name}\",\"chain\":{c},\"what\":\"acceptance rate {} but the moving average (weight 0.01) of the state-changed indicators is {}\"}}", st.p_accept, ema[c]));
+                }
+                for p in 0..*n_params {
+                    let xs: Vec<f64> = (0..n).map(|t| f(c, t, p) as f32 as f64).collect();
+                    let mean = xs.iter().sum::<f64>() / n as f64;
+                    let var = xs.iter().map(|x| (x - mean) * (x - mean)).sum::<f64>() / (n as f64 - 1.0);
+                    let scale = xs.iter().fold(0.0f64, |m, x| m.max(x.abs())).max(1e-300);
+                    if !((st.mean[p] as f64 - mean).abs() <= 1e-4 * scale) {
+                        witness(format!("{{\"oracle\":\"c13\",\"case\":\"{name}\",\"chain\":{c},\"param\":{p},\"what\":\"mean {} vs {mean}\"}}", st.mean[p]));
+                    }
+                    // the running mean of squares loses digits when |mean| >> sd: judge the variance only where f32 can resolve it
+                    if var > 1e-3 * scale * scale && !((st.sm2[p] as f64 - var).abs() <= 2e-2 * var) {
+                        witness(format!("{{\"oracle\":\"c13\",\"case\":\"{name}\",\"chain\":{c},\"param\":{p},\"what\":\"unbiased variance {} vs {var}\"}}", st.sm2[p]));
+                    }
+                }
+                stats.push(st);
+            }
+            let refs: Vec<&ChainStats> = stats.iter().collect();
+            let got = collect_rhat(&refs);
+            let multi_rhat = multi.rhat().unwrap();
+            for p in 0..*n_params {
+                let means: Vec<f64> = (0..n_chains).map(|c| (0..n).map(|t| f(c, t, p) as f32 as f64).sum::<f64>() / n as f64).collect();
+                let grand = means.iter().sum::<f64>() / n_chains as f64;
+                let w = (0..n_chains).map(|c| (0..n).map(|t| (f(c, t, p) as f32 as f64 - means[c]).powi(2)).sum::<f64>() / (n as f64 - 1.0)).sum::<f64>() / n_chains as f64;
+                let b_over_n = means.iter().map(|m| (m - grand).powi(2)).sum::<f64>() / (n_chains as f64 - 1.0);
+                let want = (((n as f64 - 1.0) / n as f64 * w + b_over_n) / w).sqrt();
+                let scale = means.iter().fold(0.0f64, |m, x| m.max(x.abs()));
+                let resolvable = w > 1e-3 * scale * scale;
+                if resolvable && !((got[p] as f64 - want).abs() <= 3e-2 * want) {
+                    witness(format!("{{\"oracle\":\"c13\",\"case\":\"{name}\",\"param\":{p},\"what\":\"collect_rhat {} but sqrt(var+/W) of the draws is {want}\"}}", got[p]));
+                }
+                if resolvable && !((multi_rhat[p] as f64 - got[p] as f64).abs() <= 2e-2 * want) {
+                    witness(format!("{{\"oracle\":\"c13\",\"case\":\"{name}\",\"param\":{p},\"what\":\"multi-chain tracker R-hat {} differs from collect_rhat {} on the same draws\"}}", multi_rhat[p], got[p]));
+                }
+            }
+            if !(0.0..=1.0).contains(&multi.p_accept) {
+                witness(format!("{{\"oracle\":\"c13\",\"case\":\"{name}\",\"what\":\"multi-chain acceptance rate {} outside [0,1]\"}}", multi.p_accept));
+            }
+        }
+    }
+
+    // ---------------------------------------------------------------- C15 ------------
+    mod densities {
+        use super::*;
+        use burn::backend::{Autodiff, NdArray};
+        use burn::tensor::{Tensor, TensorData};
+        use mini_mcmc::distributions::{BatchedGradientTarget, DiffableGaussian2D, Gaussian2D, GradientTarget, Normalized, Rosenbrock2D, RosenbrockND};
+        type B = Autodiff<NdArray<f64>>;
+        fn t1(v: &[f64]) -> Tensor<B, 1> {
+            Tensor::<B, 1>::from_data(TensorData::new(v.to_vec(), [v.len()]), &Default::default())
+        }
+        fn t2(rows: &[Vec<f64>]) -> Tensor<B, 2> {
+            let flat: Vec<f64> = rows.iter().flatten().cloned().collect();
+            Tensor::<B, 2>::from_data(TensorData::new(flat, [rows.len(), rows[0].len()]), &Default::default())
+        }
+        /// f32-level relative accuracy: the precision the tensor-based targets deliver (their constants go through f32)
+        fn close(a: f64, b: f64) -> bool {
+            (a - b).abs() <= 5e-6 * (1.0 + a.abs().max(b.abs()))
+        }
+        #[test]
+        fn oracle_c15_builtin_densities_and_gradients() {
+            let pts = [vec![0.0f64, 0.0], vec![0.5, -0.5], vec![3.0, 7.0], vec![-2.5, 1.25], vec![10.0, -10.0]];
+            for (mean, cov) in [([0.0f64, 0.0], [[1.0f64, 0.0], [0.0, 1.0]]), ([0.0, 1.0], [[4.0, 2.0], [2.0, 3.0]]), ([-3.0, 2.0], [[100.0, 9.9], [9.9, 1.0]])] {
+                let det = cov[0][0] * cov[1][1] - cov[0][1] * cov[1][0];
+                let inv = [[cov[1][1] / det, -cov[0][1] / det], [-cov[1][0] / det, cov[0][0] / det]];
+                let quad = |x: &[f64]| { let d = [x[0] - mean[0], x[1] - mean[1]]; d[0] * (inv[0][0] * d[0] + inv[0][1] * d[1]) + d[1] * (inv[1][0] * d[0] + inv[1][1] * d[1]) };
+                let norm = -(2.0 * std::f64::consts::PI).ln() - 0.5 * det.ln();
+                let g2 = Gaussian2D { mean: ndarray::arr1(&mean), cov: ndarray::arr2(&cov) };
+                let dg = DiffableGaussian2D::new(mean, cov);
+                let batch = <DiffableGaussian2D<f64> as BatchedGradientTarget<f64, B>>::unnorm_logp_batch(&dg, t2(&pts)).to_data().to_vec::<f64>().unwrap();
+                for (i, x) in pts.iter().enumerate() {
+                    let want = norm - 0.5 * quad(x);
+                    let ctx = format!("\"mean\":{mean:?},\"cov\":{cov:?},\"x\":{x:?}");
+                    if !close(g2.logp(x), want) || !close(g2.unnorm_logp(x), -0.5 * quad(x)) {
+                        witness(format!("{{\"oracle\":\"c15\",{ctx},\"what\":\"Gaussian2D logp {} / unnorm_logp {} but the normalised log-density is {want} and the unnormalised one {}\"}}", g2.logp(x), g2.unnorm_logp(x), -0.5 * quad(x)));
+                    }
+                    let (lp, grad) = <DiffableGaussian2D<f64> as GradientTarget<f64, B>>::unnorm_logp_and_grad(&dg, t1(x));
+                    let lp = lp.to_data().to_vec::<f64>().unwrap()[0];
+                    let grad = grad.to_data().to_vec::<f64>().unwrap();
+                    let d = [x[0] - mean[0], x[1] - mean[1]];
+                    let wg = [-(inv[0][0] * d[0] + inv[0][1] * d[1]), -(inv[1][0] * d[0] + inv[1][1] * d[1])];
+                    if !close(lp, want) || !close(batch[i], want) {
+                        witness(format!("{{\"oracle\":\"c15\",{ctx},\"what\":\"DiffableGaussian2D single {lp} / batched {} but the log-density is {want}\"}}", batch[i]));
+                    }
+                    if !close(grad[0], wg[0]) || !close(grad[1], wg[1]) {
+                        witness(format!("{{\"oracle\":\"c15\",{ctx},\"what\":\"gradient {grad:?} but the true gradient is {wg:?}\"}}"));
+                    }
+                }
+            }
+            // Rosenbrock forms and their gradients
+            for (a, b) in [(1.0f64, 100.0f64), (0.5, 3.0)] {
+                let r = Rosenbrock2D { a, b };
+                let batch = <Rosenbrock2D<f64> as BatchedGradientTarget<f64, B>>::unnorm_logp_batch(&r, t2(&pts)).to_data().to_vec::<f64>().unwrap();
+                for (i, x) in pts.iter().enumerate() {
+                    let want = -((a - x[0]).powi(2) + b * (x[1] - x[0] * x[0]).powi(2));
+                    let (lp, grad) = <Rosenbrock2D<f64> as GradientTarget<f64, B>>::unnorm_logp_and_grad(&r, t1(x));
+                    let lp = lp.to_data().to_vec::<f64>().unwrap()[0];
+                    let grad = grad.to_data().to_vec::<f64>().unwrap();
+                    let wg = [2.0 * (a - x[0]) + 4.0 * b * x[0] * (x[1] - x[0] * x[0]), -2.0 * b * (x[1] - x[0] * x[0])];
+                    if !close(lp, want) || !close(batch[i], want) || !close(grad[0], wg[0]) || !close(grad[1], wg[1]) {
+                        witness(format!("{{\"oracle\":\"c15\",\"a\":{a},\"b\":{b},\"x\":{x:?},\"what\":\"Rosenbrock2D single {lp} / batched {} / gradient {grad:?}; definition gives {want} and {wg:?}\"}}", batch[i]));
+                    }
+                }
+            }
+            let nd_pts = [vec![0.0f64, 0.0, 0.0, 0.0], vec![1.0, 1.0, 1.0, 1.0], vec![0.5, -1.5, 2.0, 0.25]];
+            let batch = <RosenbrockND as BatchedGradientTarget<f64, B>>::unnorm_logp_batch(&RosenbrockND {}, t2(&nd_pts)).to_data().to_vec::<f64>().unwrap();
+            for (i, x) in nd_pts.iter().enumerate() {
+                let want: f64 = -(0..3).map(|k| 100.0 * (x[k + 1] - x[k] * x[k]).powi(2) + (1.0 - x[k]).powi(2)).sum::<f64>();
+                if !close(batch[i], want) {
+                    witness(format!("{{\"oracle\":\"c15\",\"x\":{x:?},\"what\":\"RosenbrockND {} but the definition gives {want}\"}}", batch[i]));
+                }
+            }
+            // the isotropic proposal: sample is from + std * N(0,1) per coordinate (moments), reproducible after set_seed
+            for std in [1e-3f64, 0.7, 30.0] {
+                let from = vec![2.0f64, -1.0, 0.5];
+                let mut q = IsotropicGaussian::<f64>::new(std).set_seed(5);
+                let mut q2 = IsotropicGaussian::<f64>::new(std).set_seed(5);
+                let (mut s1, mut s2) = (vec![0.0f64; 3], vec![0.0f64; 3]);
+                let n = 4000;
+                for _ in 0..n {
+                    let y = q.sample(&from);
+                    if y != q2.sample(&from) {
+                        witness("{\"oracle\":\"c15\",\"what\":\"set_seed does not make the proposal draws reproducible\"}".to_string());
+                    }
+                    for j in 0..3 {
+                        s1[j] += (y[j] - from[j]) / std;
+                        s2[j] += ((y[j] - from[j]) / std).powi(2);
+                    }
+                }
+                for j in 0..3 {
+                    let (m, v) = (s1[j] / n as f64, s2[j] / n as f64);
+                    if m.abs() > 0.08 || (v - 1.0).abs() > 0.12 {
+                        witness(format!("{{\"oracle\":\"c15\",\"std\":{std},\"coordinate\":{j},\"what\":\"standardised proposal noise has mean {m} and second moment {v}\"}}"));
+                    }
+                }
+            }
+        }
+    }
+
     // ---------------------------------------------------------------- C10 ------------
     /// a target that is slow for one particular chain (identified by its first coordinate's sign pattern)
     #[derive(Clone)]
